@@ -276,7 +276,7 @@ var c29Kinds = []c29Kind{
 	{"audio/PCMU", 8000, 0, []string{"", "a=x", "a=X", "a=y", "b=1;a=x", "a=x;a=y"}},
 	{"video/VP8", 90000, 0, []string{"", "a=x", "A=x", "a=y;b=2", " a=x ; b=2", "apt=96", "max-fs=12288;max-fr=60"}},
 	{"audio/G722", 8000, 0, []string{"", "a=x"}},
-	{"video/x-test", 90000, 0, []string{"", "k=v", "k=V", "k=w", "k"}},
+	{"video/x-test", 90000, 0, []string{"", "k=v", "k=V", "k=w", "k", "\vk=v", "k=\u0085v\f", "\u00a0k\u00a0=w"}},
 	{"video/H264", 90000, 0, []string{
 		"level-asymmetry-allowed=1;packetization-mode=1;profile-level-id=42e01f",
 		"level-asymmetry-allowed=1;packetization-mode=0;profile-level-id=42e01f",
@@ -285,7 +285,11 @@ var c29Kinds = []c29Kind{
 		"packetization-mode=1;profile-level-id=zz", "packetization-mode=1;profile-level-id=42e", "packetization-mode=1",
 		"profile-level-id=42e01f", "",
 	}},
-	{"video/VP9", 90000, 0, []string{"", "profile-id=0", "profile-id=2", "profile-id=1", "PROFILE-ID=2"}},
+	{"video/VP9", 90000, 0, []string{
+		"", "profile-id=0", "profile-id=2", "profile-id=1", "PROFILE-ID=2",
+		// every Latin-1 code point strings.TrimSpace trims, around keys and values
+		"\vprofile-id=1", "\fprofile-id=2\v", "\u0085profile-id=1\u00a0", "profile-id=\u00a01;\r\nx=1\t",
+	}},
 	{"video/AV1", 90000, 0, []string{"", "profile=0", "profile=1", "level-idx=5;profile=0;tier=0"}},
 }
 
